@@ -602,6 +602,24 @@ func do_RETURN_VALUE(vm *Vm, arg int32) error {
 	return nil
 }
 
+// Returns the value carried by a StopIteration exception (its first
+// argument) or None if it doesn't have one
+func stopIterationValue(err error) py.Object {
+	var exc *py.Exception
+	switch e := err.(type) {
+	case py.ExceptionInfo:
+		exc, _ = e.Value.(*py.Exception)
+	case *py.Exception:
+		exc = e
+	}
+	if exc != nil {
+		if args, ok := exc.Args.(py.Tuple); ok && len(args) > 0 {
+			return args[0]
+		}
+	}
+	return py.None
+}
+
 // Pops TOS and delegates to it as a subiterator from a generator.
 func do_YIELD_FROM(vm *Vm, arg int32) error {
 
@@ -620,6 +638,9 @@ func do_YIELD_FROM(vm *Vm, arg int32) error {
 		if !py.IsException(py.StopIteration, err) {
 			return err
 		}
+		// The subiterator is finished - the value of the yield from
+		// expression is the value carried by its StopIteration
+		vm.SET_TOP(stopIterationValue(err))
 		return nil
 	}
 	// x remains on stack, retval is value to be yielded
